@@ -16,7 +16,7 @@ func init() {
 	Registry["C03"] = func(r *Run) *core.Report { return mapProtocol(r, "C03", 0) }
 	Registry["C04"] = func(r *Run) *core.Report { return mapProtocol(r, "C04", 1) }
 	expl := func(which, p1 string) string {
-		return "Linearizability of " + which + " is NOT decided (it quantifies over interleavings). Decided, on every CFG path, are the protocol-shape obligations without which this design cannot be linearizable: " + p1 + "; (P2) unique value pointers / immutable entries (slot pointers are per-call allocations, published entries are never written); (P3) after taking the bucket lock a writer touches the bucket only after seeing the resize flag clear and then the table pointer unchanged, in that order; (P4) in resize all bucket copies precede the single publishing store of the very table they filled, which precedes clearing the flag, and the table pointer is stored nowhere else except the constructor; (P5) bucket words are written only under the bucket lock; (P6) the copy runs under the source bucket's lock and leaves the source intact; (P7) Clear's resize request reaches the publishing store of a fresh table on every path to its return (it cannot be dropped); (P8) bucket array, mask and seed of an attempt come from one table value; (P10) a packed bucket word (meta / top-hash) is rewritten from a read of the same bucket's word; (P11) the lock-free lookup reports a key absent only on a path whose last chain-link test saw 'next == nil'."
+		return "Linearizability of " + which + " is NOT decided (it quantifies over interleavings). Decided, on every CFG path, are the protocol-shape obligations without which this design cannot be linearizable: " + p1 + "; (P2) unique value pointers / immutable entries (slot pointers are per-call allocations, published entries are never written); (P3) after taking the bucket lock a writer touches the bucket only after seeing the resize flag clear and then the table pointer unchanged, in that order; (P4) in resize all bucket copies precede the single publishing store of the very table they filled, which precedes clearing the flag, and the table pointer is stored nowhere else except the constructor; (P5) bucket words are written only under the bucket lock; (P6) the copy runs under the source bucket's lock and leaves the source intact; (P7) Clear's resize request reaches the publishing store of a fresh table on every path to its return (it cannot be dropped); (P8) bucket array, mask and seed of an attempt come from one table value; (P10) a packed bucket word (meta / top-hash) is rewritten from a read of the same bucket's word; (P11) the lock-free lookup reports a key absent only on a path whose last chain-link test saw 'next == nil'; (P3a/b) the resize flag goes 0 -> one non-zero constant -> 0 and every test of it tells that constant from 0, and the table re-check compares pointer identity; (P12) packed-word arithmetic is carried out in 64 bits; (P14) a slot write pairs a bucket with an index found in that very bucket (both used directly, or remembered together; one index value, one bucket value)."
 	}
 	Metas["C03"] = Meta{Explanation: expl("Map", "(P1) the lock-free reader returns a value only after reading the value pointer, then the key pointer, matching the key, and re-reading the same value slot unchanged"),
 		Rule:        "one obligation per (rule, function/specialisation, exit | site); non-trivial = decided by exploring the product of the CFG with the protocol automaton or by a provenance query",
